@@ -42,7 +42,7 @@ type vfC06 struct {
 	replyOf map[uint32]uint32     // reply token -> query token
 	nextTok uint32
 	nextRT  uint32
-	stats   struct{ cancelPending, lateAfterCancel, reuseAfterCancel, chunks, partial, aborts, idle, reuse, garbage int }
+	stats   struct{ cancelPending, lateAfterCancel, reuseAfterCancel, chunks, partial, aborts, idle, reuse, garbage, preCancelled int }
 }
 
 func (h *vfC06) scan() {
@@ -234,6 +234,10 @@ func TestVfC06Reuse(t *testing.T) {
 			ctx, cancel := context.WithCancel(context.Background())
 			e.cancel = cancel
 			h.exchs = append(h.exchs, e)
+			if rapid.IntRange(0, 5).Draw(t, "alreadyCancelled") == 0 {
+				cancel() // the caller has given up before the exchange even starts (e.g. a fallback after the deadline)
+				h.stats.preCancelled++
+			}
 			go func() {
 				defer close(e.done)
 				m, err := tr.ExchangeContext(ctx, e.query)
@@ -387,7 +391,7 @@ func TestVfC06Reuse(t *testing.T) {
 		h.check()
 		nontrivial := h.stats.cancelPending > 0 && h.stats.lateAfterCancel > 0 && afterCancelStart
 		classes := []string{}
-		for n, v := range map[string]int{"cancel": h.stats.cancelPending, "late-after-cancel": h.stats.lateAfterCancel, "reuse": h.stats.reuse, "reuse-after-cancel": h.stats.reuseAfterCancel, "chunked": h.stats.chunks, "partial": h.stats.partial, "abort": h.stats.aborts, "garbage-reply": h.stats.garbage, "idle-wait": h.stats.idle} {
+		for n, v := range map[string]int{"cancel": h.stats.cancelPending, "late-after-cancel": h.stats.lateAfterCancel, "reuse": h.stats.reuse, "reuse-after-cancel": h.stats.reuseAfterCancel, "chunked": h.stats.chunks, "partial": h.stats.partial, "abort": h.stats.aborts, "garbage-reply": h.stats.garbage, "idle-wait": h.stats.idle, "start-already-cancelled": h.stats.preCancelled} {
 			if v > 0 {
 				classes = append(classes, n)
 			}
